@@ -287,9 +287,11 @@ func TestIsolation(t *testing.T) {
 		defer w.targets[0].Close()
 		defer w.targets[1].Close()
 		cfg := vlib.PairConfig{Carrier: carrier, ClientInsecure: true,
-			Channels: []vlib.ChannelSpec{{Name: "ch0", Target: w.targets[0].URL()}, {Name: "ch1", Target: w.targets[1].URL()}},
+			// "deadch" is a channel whose target refuses connections (a port of the harness's range nobody listens on)
+			Channels: []vlib.ChannelSpec{{Name: "ch0", Target: w.targets[0].URL()}, {Name: "ch1", Target: w.targets[1].URL()},
+				{Name: "deadch", Target: "tcp://" + vlib.HostPort(vlib.Port())}},
 			// "nochan" is a listener for a channel the server does not have: requests for it are refused
-			Listeners: []vlib.ListenerSpec{{Channel: "ch0"}, {Channel: "ch1"}, {Channel: "nochan"}}}
+			Listeners: []vlib.ListenerSpec{{Channel: "ch0"}, {Channel: "ch1"}, {Channel: "nochan"}, {Channel: "deadch"}}}
 		if startTLS || strings.Contains(carrier, "tls") || carrier == vlib.CarHTTPS {
 			cfg.ServerCert = &vlib.GetPKI().ServerGood
 		}
@@ -438,18 +440,19 @@ func TestIsolation(t *testing.T) {
 			"refusedOpen": func(rt *rapid.T) {
 				// somebody asks for a channel the server does not offer while the others are busy: the refusal must
 				// stay that logical connection's own business
-				c, err := w.pair.Dial("nochan")
+				which := rapid.SampledFrom([]string{"nochan", "deadch"}).Draw(rt, "refused")
+				c, err := w.pair.Dial(which)
 				if err != nil {
-					fail("dial listener of the unconfigured channel: " + err.Error())
+					fail("dial listener of the channel that cannot be served (" + which + "): " + err.Error())
 				}
 				c.SetDeadline(time.Now().Add(bound))
 				c.Write([]byte("hello?"))
 				buf := make([]byte, 16)
 				n, rerr := c.Read(buf)
 				c.Close()
-				w.logf("refusedOpen -> %d bytes, %v", n, rerr)
+				w.logf("refusedOpen %s -> %d bytes, %v", which, n, rerr)
 				if n > 0 {
-					fail(fmt.Sprintf("a request for a channel the server does not have returned %d bytes of data", n))
+					fail(fmt.Sprintf("a request for a channel the server cannot serve (%s) returned %d bytes of data", which, n))
 				}
 				refusals++
 			},
